@@ -35,6 +35,7 @@ def struct_cpp(i, s):
     o.append("    if (var == 2) return %s;" % v2.make_expr())
     o.append("    if (var == 3) return %s;" % v3.make_expr())
     o.append("    if (var == 4) return %s;" % v4.make_expr())
+    o.append("    if (var == 5) return %s;" % g.with_cfgvar(s, 5).make_expr())
     o.append("    return %s;" % s.make_expr())
     o.append("  }")
     if arr_idx:
